@@ -227,6 +227,9 @@ def write_text(f, key, disk, scratch, form=0):
     kw = form % 4 == 3
     if disk:
         p = os.path.join(scratch, "w.bf3")
+        # the path already holds a LONGER file (an older, bigger version; here with a recognisable marker): writing replaces it
+        with open(p, "w") as fh:
+            fh.write("Old: file\n\n" + "5A" * 40 + "\n" + ("DEADBEEF" * 10 + "\n") * (40 + form % 7 * 300))
         if dflt:
             f.write_file(p)
         elif kw:
